@@ -27,6 +27,9 @@ type c10Msg struct {
 	Params interface{} `json:"params"`
 	QKey   string      `json:"qkey,omitempty"`
 	Idx    int         `json:"mut_index,omitempty"` // 1-based index among mutators
+	// Disk: auxiliary files the client rewrites on disk right before it sends this mutator (a watched-files batch after
+	// e.g. a branch switch). The auxiliary files define nothing any query asks about, so answers do not depend on them.
+	Disk map[string]string `json:"disk,omitempty"`
 }
 
 type c10In struct {
@@ -115,6 +118,15 @@ func c10GenPhase(r *Rng, nmsg int) c10Phase {
 		rels = append(rels, rel)
 		ph.Files[rel] = c10Versions(i)[0]
 	}
+	naux := 10
+	auxText := func(i, v int) string {
+		// fixed-width version stamps: every position in the file is the same in every version
+		return fmt.Sprintf("-- auxiliary %d version %04d\nlocal zq%d = { %04d, %d }\nlocal function zh%d(p) return p + %04d end\nreturn zh%d(zq%d[1])\n", i, v, i, v+1000, i, i, v+1000, i, i)
+	}
+	for i := 0; i < naux; i++ {
+		ph.Files[fmt.Sprintf("aux/z%d.lua", i)] = auxText(i, 0)
+	}
+	auxVer := 0
 	uri := func(rel string) string { return "file://$ROOT/" + rel }
 	open := map[string]bool{}
 	ver := 1
@@ -164,7 +176,21 @@ func c10GenPhase(r *Rng, nmsg int) c10Phase {
 					addMut("didOpen", "textDocument/didOpen", map[string]interface{}{"textDocument": map[string]interface{}{"uri": uri(rel), "languageId": "lua", "version": 1, "text": ph.Files[rel]}})
 				}
 			case k == 9:
-				addMut("watched", "workspace/didChangeWatchedFiles", map[string]interface{}{"changes": []interface{}{map[string]interface{}{"uri": uri(rel), "type": 2}}})
+				if r.Bool() {
+					addMut("watched", "workspace/didChangeWatchedFiles", map[string]interface{}{"changes": []interface{}{map[string]interface{}{"uri": uri(rel), "type": 2}}})
+					continue
+				}
+				// several files really change on disk and are announced in one notification: pass one runs on a worker pool
+				auxVer++
+				disk := map[string]string{}
+				var chs []interface{}
+				for _, ai := range r.Perm(naux)[:r.Range(3, naux)] {
+					arel := fmt.Sprintf("aux/z%d.lua", ai)
+					disk[arel] = auxText(ai, auxVer)
+					chs = append(chs, map[string]interface{}{"uri": uri(arel), "type": 2})
+				}
+				addMut("watched", "workspace/didChangeWatchedFiles", map[string]interface{}{"changes": chs})
+				ph.Msgs[len(ph.Msgs)-1].Disk = disk
 			default:
 				w := map[string]interface{}{}
 				for i, kk := range checkFlagNames {
@@ -247,6 +273,9 @@ func c10Flood(c *Ctx, ph c10Phase, binary, tag string, raceDir string) (obs []c1
 	for i, m := range ph.Msgs {
 		p := substRoot(m.Params, ws.Root)
 		if m.Mut {
+			for rel, txt := range m.Disk {
+				ws.Write(rel, txt)
+			}
 			srv.mu.Lock()
 			clk := srv.clock + 1
 			srv.mu.Unlock()
@@ -429,6 +458,9 @@ func c10Reference(c *Ctx, ph c10Phase, tag string) (map[string]map[int]string, e
 				continue
 			}
 			k++
+			for rel, txt := range m.Disk {
+				ws.Write(rel, txt)
+			}
 			srv.Notify(m.Method, substRoot(m.Params, ws.Root))
 			if err := ask(k); err != nil {
 				return nil, err
@@ -556,7 +588,25 @@ func runC10(c *Ctx) {
 				},
 				Equal: func(a, b interface{}) bool { return a.(int) == b.(int) },
 			}
-			res, _ := porcupine.CheckOperationsVerbose(model, ops, 90*time.Second)
+			res, _ := porcupine.CheckOperationsVerbose(model, ops, 25*time.Second)
+			// The model's state is just the number of mutators applied and mutators are applied in index order, so this
+			// history also has an exact polynomial decision (c10Monotone). It is cross-checked against porcupine on every
+			// history porcupine finishes, and decides the histories on which porcupine's search times out.
+			mono := c10Monotone(ops, model)
+			switch {
+			case res == porcupine.Unknown:
+				c.Count("histories_decided_by_monotone_checker_after_porcupine_timeout", 1)
+				if mono {
+					res = porcupine.Ok
+				} else {
+					res = porcupine.Illegal
+				}
+			case (res == porcupine.Ok) != mono:
+				c.Inconclusive(fmt.Sprintf("harness inconsistency: porcupine says %v, monotone checker says %v", res, mono))
+				continue
+			default:
+				c.Count("histories_where_porcupine_and_monotone_checker_agree", 1)
+			}
 			c.Count("histories_checked", 1)
 			c.Count("history_operations", int64(len(ops)))
 			// overlap statistics: query q overlapped mutator m if their intervals intersect
@@ -615,10 +665,80 @@ func runC10(c *Ctx) {
 	c.Set("race_report_classes", raceClasses)
 	c.Set("overlapping_query_x_mutator_pairs_observed", overlap)
 	c.Set("distinct_overlap_kinds", len(overlap))
-	c.Finish("message floods (queries of 10 kinds on 3 open files mixed with didChange/didSave/didOpen/didClose/watched/configuration mutators, nothing awaited) "+
+	c.Finish("message floods (queries of 10 kinds on 3 open files mixed with didChange/didSave/didOpen/didClose/watched (single file, and batches of 3-10 files rewritten on disk)/configuration mutators, nothing awaited) "+
 		"against the -race server, each phase repeated; race detector reports classified by handler pair; the client-side history (call = send, return = response, "+
 		"notifications closed by the dispatch barrier) is checked with porcupine against the sequential replay of the same mutators. distinct_nontrivial = floods whose "+
 		"history was accepted by porcupine with at least one query overlapping a mutator", 3)
 }
 
 var wsRootRe = regexp.MustCompile(`/tmp/lhv\d+/w\d+/ws`)
+
+// c10Monotone decides linearizability of a history against the C10 model exactly. In that model the state is the number k
+// of mutators applied, mutator j is only legal in state j-1, and a query is legal in the states whose reference answer it
+// equals. A linearization is therefore an assignment of a state k(q) to every query such that (real time: a precedes b
+// when a.Return < b.Call) k(q) >= j for every mutator j that precedes q, k(q) < j for every mutator j that q precedes, and
+// k(p) <= k(q) whenever query p precedes query q. Real-time precedence of intervals is an interval order (no 2+2), the
+// assigned order is a weak order, so the union is acyclic iff no pair contradicts - these pairwise conditions are
+// sufficient. Assigning, in order of return time, the smallest admissible state is optimal because every constraint a
+// query inherits from earlier ones is a lower bound.
+func c10Monotone(ops []porcupine.Operation, model porcupine.Model) bool {
+	type mut struct {
+		idx       int
+		call, ret int64
+	}
+	var muts []mut
+	var qs []porcupine.Operation
+	for _, o := range ops {
+		in := o.Input.(c10In)
+		if in.Mut {
+			muts = append(muts, mut{in.Idx, o.Call, o.Return})
+		} else {
+			qs = append(qs, o)
+		}
+	}
+	nm := len(muts)
+	sort.Slice(muts, func(a, b int) bool { return muts[a].idx < muts[b].idx })
+	for i, m := range muts {
+		if m.idx != i+1 {
+			return false // a mutator is missing from the history: not explainable by the model
+		}
+		if i > 0 && m.ret < muts[i-1].call {
+			return false
+		}
+	}
+	sort.SliceStable(qs, func(a, b int) bool {
+		if qs[a].Return != qs[b].Return {
+			return qs[a].Return < qs[b].Return
+		}
+		return qs[a].Call < qs[b].Call
+	})
+	assigned := make([]int, len(qs))
+	for i, q := range qs {
+		lo, hi := 0, nm
+		for _, m := range muts {
+			if m.ret < q.Call && m.idx > lo {
+				lo = m.idx
+			}
+			if q.Return < m.call && m.idx-1 < hi {
+				hi = m.idx - 1
+			}
+		}
+		for p := 0; p < i; p++ {
+			if qs[p].Return < q.Call && assigned[p] > lo {
+				lo = assigned[p]
+			}
+		}
+		found := -1
+		for k := lo; k <= hi; k++ {
+			if ok, _ := model.Step(k, q.Input, q.Output); ok {
+				found = k
+				break
+			}
+		}
+		if found < 0 {
+			return false
+		}
+		assigned[i] = found
+	}
+	return true
+}
